@@ -1,5 +1,5 @@
 """Kani leg: scratch copy of the working tree + add-only harness modules, cargo kani, result parsing."""
-import os, re, shutil, subprocess, sys, tempfile, time, glob
+import signal, os, re, shutil, subprocess, sys, tempfile, time, glob
 
 HERE = os.path.dirname(os.path.abspath(__file__))
 ROOT = os.path.dirname(HERE)
@@ -7,8 +7,18 @@ ROOT = os.path.dirname(HERE)
 def sh(cmd, cwd=None, timeout=None, env=None):
     e = dict(os.environ)
     if env: e.update(env)
-    p = subprocess.run(cmd, cwd=cwd, stdout=subprocess.PIPE, stderr=subprocess.STDOUT, text=True, timeout=timeout, env=e)
-    return p.returncode, p.stdout
+    # own process group: on a timeout the whole tree (cargo-kani, kani-driver, cbmc) is killed, not just the direct child - an orphaned
+    # cbmc would keep its memory and, holding the pipe, keep this call from returning
+    p = subprocess.Popen(cmd, cwd=cwd, stdout=subprocess.PIPE, stderr=subprocess.STDOUT, text=True, env=e, start_new_session=True)
+    try:
+        out, _ = p.communicate(timeout=timeout)
+    except subprocess.TimeoutExpired:
+        try: os.killpg(p.pid, signal.SIGKILL)
+        except ProcessLookupError: pass
+        try: p.communicate(timeout=30)
+        except Exception: pass
+        raise
+    return p.returncode, out
 
 def harness_files():
     res = []
